@@ -199,12 +199,19 @@ def check(ctx):
         d = g.choice([EuropeanOption, LookbackOption])(stock, maturity=g.choice([3, 5]) / 250)
         torch.manual_seed(g.randint(0, 10 ** 6))
         feats = ["moneyness", "time_to_maturity"] + (["prev_hedge"] if stateful else [])
-        model = torch.nn.Linear(len(feats), 1, dtype=dt)
+        embed = None
+        if g.chance(0.35):
+            # a trainable embedding as a ModuleOutput feature (its parameters belong to what is trained; with prev_hedge among its
+            # inputs the recurrent path runs through it)
+            from pfhedge.features import ModuleOutput
+            embed = torch.nn.Sequential(torch.nn.Linear(len(feats), 2, dtype=dt), torch.nn.Tanh())
+            feats = [ModuleOutput(embed, feats), "volatility"]
+        model = torch.nn.Linear(3 if embed is not None else len(feats), 1, dtype=dt)
         hedger = Hedger(model, feats, criterion=crit)
         k = g.choice([1, 2, 3])
         npaths = g.choice([4, 7])
         case = {"graph_check": it, "criterion": cname, "stateful": stateful, "n_times": k, "n_paths": npaths, "primary": type(stock).__name__,
-                "option": type(d).__name__}
+                "option": type(d).__name__, "module_output_feature": embed is not None}
         ctx.case(case, True, tag="graph")
         ctx.stats[f"graph:crit={cname}"] += 1
         p = hedger.price(d, n_paths=npaths, n_times=k)
@@ -221,7 +228,7 @@ def check(ctx):
             ctx.fail("compute_loss() carries no graph although gradients are enabled", case, key="graph:compute_loss-enable")
         # ---- gradient of the ensemble loss: autograd vs (a) mean of the k single-batch gradients under the same random seed,
         #      (b) central finite differences of the loss re-evaluated under that seed (same paths)
-        params = list(model.parameters()) + list(crit.parameters())
+        params = list(model.parameters()) + list(crit.parameters()) + (list(embed.parameters()) if embed is not None else [])
         seed = g.randint(0, 10 ** 6)
 
         def flat(gs):
